@@ -81,7 +81,7 @@ static uint64_t run_reused(const struct iso_case *ic)
 struct worker {
 	pthread_t th;
 	const struct c06_script *s;
-	volatile int *stop;
+	int *stop;
 	long rounds;
 	uint64_t expect, bad;
 };
@@ -97,14 +97,14 @@ static void *worker_main(void *arg)
 		else if (h != w->expect)
 			w->bad++;
 		w->rounds++;
-	} while (!*w->stop);
+	} while (!__atomic_load_n(w->stop, __ATOMIC_ACQUIRE));
 	return NULL;
 }
 
 static uint64_t run_threaded(const struct iso_case *ic, int nthreads, uint64_t yexpect, long *rounds, long *ybad)
 {
 	struct worker w[16];
-	volatile int stop = 0;
+	int stop = 0;
 	struct c06_obs o;
 	uint64_t h = 0;
 	int i, rep;
@@ -124,7 +124,7 @@ static uint64_t run_threaded(const struct iso_case *ic, int nthreads, uint64_t y
 		else if (hh != h)
 			h = ~hh;	/* differs between repetitions: certainly != solo */
 	}
-	stop = 1;
+	__atomic_store_n(&stop, 1, __ATOMIC_RELEASE);
 	*rounds = 0;
 	*ybad = 0;
 	for (i = 0; i < nthreads; i++) {
@@ -133,6 +133,34 @@ static uint64_t run_threaded(const struct iso_case *ic, int nthreads, uint64_t y
 		*ybad += (long)w[i].bad;
 	}
 	return h;
+}
+
+/* the very first xmp_get_format_list() calls of the process, made concurrently */
+static void *fmtlist_main(void *arg)
+{
+	const char *const *l = xmp_get_format_list();
+	uint64_t h = FNV_INIT;
+	int i;
+	for (i = 0; l[i] != NULL; i++)
+		h = c06_str(h, l[i]);
+	*(uint64_t *)arg = h;
+	return NULL;
+}
+
+static int fmtlist_first_call(int nthreads)
+{
+	pthread_t th[16];
+	uint64_t h[16];
+	int i, bad = 0;
+	if (nthreads > 16) nthreads = 16;
+	for (i = 0; i < nthreads; i++)
+		pthread_create(&th[i], NULL, fmtlist_main, &h[i]);
+	for (i = 0; i < nthreads; i++)
+		pthread_join(th[i], NULL);
+	for (i = 1; i < nthreads; i++)
+		if (h[i] != h[0]) bad = 1;
+	printf("fmtlist_first_call threads %d %s\n", nthreads, bad ? "DIFFER" : "same");
+	return bad;
 }
 
 /* ---- generation -------------------------------------------------------- */
@@ -377,6 +405,8 @@ int main(int argc, char **argv)
 	for (i = 0; i < mods.n; i++)
 		mods.data[i] = read_file(mods.path[i], &mods.size[i]);
 	vrng_seed(seed);
+	if (nthreads > 1)
+		fmtlist_first_call(nthreads);
 	for (i = 0; i < ncases; i++) {
 		struct iso_case *ic = (struct iso_case *)calloc(1, sizeof(*ic));
 		gen_case(ic, i % 2 == 0);
